@@ -481,7 +481,13 @@ func deepHashSelfTest(root any) (sites, skipped int, missed []string) {
 				return
 			}
 			for i := 0; i < v.NumField(); i++ {
-				visit(v.Field(i), path+"."+v.Type().Field(i).Name)
+				name := path + "." + v.Type().Field(i).Name
+				switch v.Field(i).Kind() {
+				case reflect.Pointer, reflect.Slice, reflect.Map:
+					// the field itself: nil <-> non-nil (a planted pointer where nil was, and back)
+					try(v.Field(i), name+"(nil<->set)")
+				}
+				visit(v.Field(i), name)
 			}
 		case reflect.Array:
 			for i := 0; i < v.Len(); i++ {
@@ -522,6 +528,29 @@ func deepHashSelfTest(root any) (sites, skipped int, missed []string) {
 			for _, kk := range keys {
 				visit(v.MapIndex(kk), path+"[k]")
 			}
+			if ek := v.Type().Elem().Kind(); ek == reflect.Pointer && len(keys) > 1 {
+				for _, kk := range keys[1:] {
+					func() {
+						defer func() {
+							if recover() != nil {
+								skipped++
+							}
+						}()
+						old := v.MapIndex(kk)
+						nv := reflect.New(v.Type().Elem()).Elem()
+						nv.Set(old)
+						if !reflMutate(nv) {
+							return
+						}
+						v.SetMapIndex(kk, nv)
+						sites++
+						if deepHash(root) == h0 {
+							missed = append(missed, path+"[map pointer value]")
+						}
+						v.SetMapIndex(kk, old)
+					}()
+				}
+			}
 		case reflect.Slice:
 			if v.IsNil() || v.Cap() == 0 {
 				return
@@ -544,6 +573,9 @@ func deepHashSelfTest(root any) (sites, skipped int, missed []string) {
 			switch v.Type().Elem().Kind() {
 			case reflect.Interface, reflect.Pointer, reflect.Struct, reflect.Array, reflect.Map, reflect.Slice:
 				for i := 0; i < n; i++ {
+					if k := v.Type().Elem().Kind(); (k == reflect.Pointer || k == reflect.Slice) && i > 0 && i < n-1 {
+						try(v.Index(i), fmt.Sprintf("%s[%d](nil<->set)", path, i)) // every pointer/slice element
+					}
 					visit(v.Index(i), fmt.Sprintf("%s[%d]", path, i))
 				}
 			}
